@@ -10,8 +10,8 @@ pub trait RecGlue: 'static {
     fn variant(&self) -> usize;
     /// Digest of the field (through the read accessor).
     fn get(&self, datum: usize) -> u64;
-    /// Ledger identity of the field's value, if its type is a tracked token.
-    fn tok(&self, datum: usize) -> Option<u64>;
+    /// Ledger identities of the tracked tokens owned by the field's value.
+    fn toks(&self, datum: usize) -> Vec<u64>;
     /// Assigns a new value through the mutable accessor (the old value is dropped by the assignment).
     fn set(&mut self, datum: usize, seed: u64);
     /// Changes the value in place through the mutable accessor.
